@@ -1,0 +1,18 @@
+//go:build verif
+
+// Contracts for the deductive verifier in /verif (comment-only file; it
+// contributes no code to any build). Syntax: see /verif/DESIGN.md.
+//
+// Property C17, the queued replicator: its queue holds one token. A call hands
+// back exactly the tokens it took (sends and receives on the token channel are
+// counted per channel), and the copy itself runs only while the call holds the
+// token — so no more copies run than there are tokens.
+package replication
+
+//@ ghost sends(ref) int
+//@ func (*queuedBlobReplicator).ReplicateMultiple
+//@   requires br.base != nil && br.existenceCache != nil && held(addr(br.existenceCache.lock)) == 0 && ctxDone(ctx) != br.wait
+//@   ensures [hands-back-exactly-the-tokens-it-took] sends(br.wait) - old(sends(br.wait)) == recvs(br.wait) - old(recvs(br.wait))
+//@   ensures [copies-only-while-holding-the-token] repMulti(br.base) != old(repMulti(br.base)) ==> recvs(br.wait) == old(recvs(br.wait)) + 1
+//@   ensures [at-most-one-copy-per-call] repMulti(br.base) <= old(repMulti(br.base)) + 1
+//@   ensures [success-is-the-copiers] repMulti(br.base) != old(repMulti(br.base)) ==> result == repErr(br.base)
